@@ -17,7 +17,7 @@ from mc import core
 
 PROPERTY = 'C06'
 GUARD = ['numqi.entangle', 'numqi.gellmann']  # argument-immutability oracle (mc.seams.ImmutabilityGuard)
-GUARD_LAYOUT = ['numqi.entangle', 'numqi.gellmann']  # memory-layout metamorphic oracle (same wrapper)
+GUARD_LAYOUT = ['numqi.entangle._misc', 'numqi.gellmann', 'numqi.entangle.ppt.get_ppt_boundary', 'numqi.entangle.ppt.is_ppt', 'numqi.entangle.ppt.is_generalized_ppt']  # memory-layout metamorphic oracle: eigenvalue-based functions only (SDP / LP optima differ by solver tolerance)
 LEVEL = 'model_checking'
 RULE = ('state = (dimension pair, direction of the alphabet, method variant) or (inner model, lattice parameter point); the direction '
         'alphabet x variant product is enumerated completely; transition = one boundary / criterion evaluation compared with an '
@@ -316,9 +316,13 @@ def run_case(case, out, env):
             b_cha[i] = beta
             ab = np.einsum('ki,kj->kij', kA, kB).reshape(len(lam), N)
             rec = np.einsum('k,ki,kj->ij', lam, ab, ab.conj())
-            if abs(lam.sum() - 1) > 1e-5 or lam.min() < -1e-9 or np.abs(rec - point(unit, beta)).max() > 1e-5:
+            # LP solution over num_state = 3 (dA dB)^2 weights: each weight carries the solver's feasibility error (~1e-5 for the
+            # 'inaccurate' solves CLARABEL often returns here) and the library drops the non-positive ones before returning, so the
+            # returned weights sum to 1 only up to num_state * 1e-5 (observed 1.5e-4 with 108 weights); same bound for the recombination
+            tol_lp = max(SOLVER_TOL, model.num_state * 1e-5)
+            if abs(lam.sum() - 1) > tol_lp or lam.min() < -1e-9 or np.abs(rec - point(unit, beta)).max() > tol_lp:
                 out.violation('CHABoundaryBagging.solve/decomposition_does_not_reproduce_boundary_point',
-                              'returned product states and weights do not recombine to rho(beta) (direction %s, diff %.3g)' % (lab, np.abs(rec - point(unit, beta)).max()), dims=dims, dm=dm)
+                              'returned product states and weights do not recombine to rho(beta) (direction %s, diff %.3g, sum(lambda)-1 = %.3g, min(lambda) = %.3g)' % (lab, np.abs(rec - point(unit, beta)).max(), lam.sum() - 1, lam.min()), dims=dims, dm=dm)
         for i, (lab, dm, unit) in enumerate(sel):
             out.state()
 
